@@ -233,62 +233,138 @@ def clause_f(facts, rep):
 
 
 def clause_g(facts, rep):
-    """Schubfach: the rounding interval is closed exactly when the significand is even, on BOTH ends:
-    lower = vbl + p, upper = vbr - p' with p == p' == (c & 1)"""
+    """Schubfach: the rounding interval is closed exactly when the significand is even, on BOTH ends.
+    F64ToDecimal is straight-line integer code around three RoundToOdd calls (left / middle / right boundary,
+    recognised by the value of their scaled argument 4c-2, 4c, 4c+2).  Every comparison one side of which depends
+    on the left (right) boundary and not on the middle one is an interval test; that side is evaluated by
+    substituting definitions, for c = 0..3 and two different boundary values, and must equal
+    left + (c & 1)   (resp. right - (c & 1))."""
     fd = [x for x in facts.functions if x.qn == NS + 'F64ToDecimal']
+    rep.require(len(fd) >= 1, 'C07.g: F64ToDecimal not found')
     for f in fd:
         defs = {}
-        lower = upper = None
         for bid, i, s in f.stmts():
             s_ = strip(s)
+            if s_ is None:
+                continue
             if s_.get('k') == 'bin' and s_['op'] == '=' and strip(s_['l']).get('k') == 'ref':
-                n = strip(s_['l'])['name']
                 defs.setdefault(strip(s_['l'])['id'], []).append(s_['r'])
-                if n == 'lower':
-                    lower = s_['r']
-                if n == 'upper':
-                    upper = s_['r']
-        rep.require(lower is not None and upper is not None, 'C07.g: interval endpoint assignments not found')
-        if lower is None or upper is None:
+            if s_.get('k') == 'decl':
+                for vd in s_['vars']:
+                    if vd.get('init') is not None:
+                        defs.setdefault(vd['id'], []).append(vd['init'])
+        ps = {p['name']: p['id'] for p in f.params}
+        rep.require(all(k in ps for k in ('c', 'q', 'rsig', 'rexp')), 'C07.g: parameters of F64ToDecimal not bound')
+        if not all(k in ps for k in ('c', 'q', 'rsig', 'rexp')):
             return
-        cpar = [p for p in f.params if p['name'] == 'c']
-        rep.require(len(cpar) == 1, 'C07.g: significand parameter not bound')
-        if not cpar:
-            return
-        cid = cpar[0]['id']
+
+        class Opaque(Exception):
+            pass
 
         def ev(e, env):
             c = cval(e)
             e_ = strip(e)
-            if c is not None and e_.get('k') != 'ref':
-                return c
+            if e_ is None:
+                raise KeyError('empty')
             k = e_.get('k')
+            if c is not None and k != 'ref':
+                return c
             if k == 'ref':
                 if e_['id'] in env:
                     return env[e_['id']]
                 ds = defs.get(e_['id'])
                 if ds and len(ds) == 1:
                     return ev(ds[0], env)
+                if c is not None:
+                    return c
                 raise KeyError(e_.get('name'))
-            if k == 'un' and e_['op'] == '!':
-                return int(not ev(e_['e'], env))
+            if k == 'un':
+                v = ev(e_['e'], env)
+                if e_['op'] == '!':
+                    return int(not v)
+                if e_['op'] == '-':
+                    return -v
+                raise KeyError(e_['op'])
+            if k == 'cond':
+                return ev(e_['then'], env) if ev(e_['c'], env) else ev(e_['else'], env)
+            if k == 'call' and e_.get('cname') == 'RoundToOdd':
+                a = ev(e_['args'][1], dict(env, **{'noshift': True}))
+                kind = {4 * env[ps['c']] - 2: 'L', 4 * env[ps['c']]: 'M', 4 * env[ps['c']] + 2: 'R'}.get(a)
+                if kind is None:
+                    raise KeyError('RoundToOdd argument %s' % a)
+                return env[kind]
             if k == 'bin':
-                l, r = ev(e_['l'], env), ev(e_['r'], env)
-                return {'&': l & r, '!=': int(l != r), '==': int(l == r), '+': l + r, '-': l - r, '%': l % r if r else 0}[e_['op']]
+                op = e_['op']
+                l = ev(e_['l'], env)
+                if op == '&&':
+                    return int(bool(l) and bool(ev(e_['r'], env)))
+                if op == '||':
+                    return int(bool(l) or bool(ev(e_['r'], env)))
+                if op == '<<' and env.get('noshift'):
+                    return l      # the common scale 2^h of the three boundaries is irrelevant for telling them apart
+                r = ev(e_['r'], env)
+                if op in ('/', '%') and r == 0:
+                    raise KeyError('division by zero')
+                fn_ = {'&': lambda: l & r, '|': lambda: l | r, '+': lambda: l + r, '-': lambda: l - r, '*': lambda: l * r, '/': lambda: l // r, '%': lambda: l % r,
+                       '>>': lambda: l >> r, '<<': lambda: l << r, '==': lambda: int(l == r), '!=': lambda: int(l != r), '<': lambda: int(l < r), '<=': lambda: int(l <= r),
+                       '>': lambda: int(l > r), '>=': lambda: int(l >= r)}.get(op)
+                if fn_ is None:
+                    raise KeyError(op)
+                return fn_()
             raise KeyError(k)
+
+        def envs(c, L, M, R):
+            return {ps['c']: c, ps['q']: 0, ps['rsig']: 1, ps['rexp']: 1, 'L': L, 'M': M, 'R': R}
+        A = (1000000, 2000000, 3000000)
+        B = (1000400, 2000800, 3001200)
+
+        def depends(e, which):
+            base = ev(e, envs(2, *A))
+            alt = list(A)
+            alt['LMR'.index(which)] += 4000
+            return ev(e, envs(2, *alt)) != base
+        nL = nR = 0
         try:
-            lo_adj = strip(lower)
-            up_adj = strip(upper)
-            ok = lo_adj.get('k') == 'bin' and lo_adj['op'] == '+' and up_adj.get('k') == 'bin' and up_adj['op'] == '-'
-            vals = []
-            if ok:
-                for c in range(4):
-                    vals.append((ev(lo_adj['r'], {cid: c}), ev(up_adj['r'], {cid: c}), c & 1))
-                ok = all(a == b == p for a, b, p in vals)
-            rep.check(ok, 'E9.interval-parity', f.qn, 'lower = vbl + p, upper = vbr - p with p = c & 1', locline(lower['loc']),
-                      '(lower adj, upper adj, c&1) for c=0..3: %s' % vals, facts.config)
+            seen = set()
+            for bid, i, s, e in f.walk():
+                if e.get('k') != 'bin' or e['op'] not in ('<=', '>=', '<', '>') or id(e) in seen:
+                    continue
+                seen.add(id(e))
+                sides = {'l': e['l'], 'r': e['r']}
+                dep = {}
+                for nm, x in sides.items():
+                    try:
+                        dep[nm] = ''.join(w for w in 'LMR' if depends(x, w))
+                    except KeyError:
+                        dep[nm] = None
+                for nm, other in (('l', 'r'), ('r', 'l')):
+                    d = dep[nm]
+                    if d not in ('L', 'R'):
+                        continue
+                    # normalise to  Lside <= T   /   T <= Rside
+                    small_side = 'l' if e['op'] in ('<=', '<') else 'r'
+                    strict = e['op'] in ('<', '>')
+                    want_small = (d == 'L')
+                    if strict or (small_side == nm) != want_small:
+                        raise AnalysisBroken('C07.g: interval test %s is not of the form left <= t / t <= right' % show(e))
+                    vals = []
+                    ok = True
+                    for c in range(4):
+                        for (L, M, R) in (A, B):
+                            got = ev(sides[nm], envs(c, L, M, R))
+                            exp = (L + (c & 1)) if d == 'L' else (R - (c & 1))
+                            vals.append((c, got - (L if d == 'L' else R)))
+                            ok = ok and got == exp
+                    if d == 'L':
+                        nL += 1
+                    else:
+                        nR += 1
+                    rep.check(ok, 'E9.interval-parity', f.qn, '%s endpoint in %s' % ('lower' if d == 'L' else 'upper', show(e)), locline(e['loc']),
+                              'the %s endpoint of the rounding interval must be the boundary %s (c & 1): open exactly for odd significands; (c, endpoint - boundary) = %s' % (
+                                  'lower' if d == 'L' else 'upper', '+' if d == 'L' else '-', sorted(set(vals))), facts.config)
         except KeyError as ex:
-            raise AnalysisBroken('C07.g: endpoint adjustment not evaluable (%s)' % ex)
+            raise AnalysisBroken('C07.g: F64ToDecimal not evaluable (%s)' % ex)
+        rep.require(nL >= 2 and nR >= 2, 'C07.g: interval tests found: %d lower, %d upper' % (nL, nR))
 
 
 def run(rep, tier):
@@ -302,8 +378,11 @@ def run(rep, tier):
         clause_e(facts, rep)
         clause_f(facts, rep)
         clause_g(facts, rep)
-    rep.trust('clang 14 front end and constant evaluator', 'Python big integers / fractions')
+        from .. import narrowing
+        narrowing.check(facts, rep, 'E3.lossless-narrowing', ('ftoa.h',), bounds={('FormatSignificand', 'sig'): 10 ** 17}, min_sites=2)
+    rep.trust('clang 14 front end and constant evaluator', 'Python big integers / fractions',
+              'contract: the decimal significand handed to FormatSignificand has at most 17 digits (< 10^17)')
     rep.assumptions += [
-        'decides the power-of-ten table, the log approximations on the whole double exponent range, the table index range, the digit-count thresholds, that every text has a fraction or exponent, the length bound, and that both interval endpoints use the same parity adjustment',
+        'decides the power-of-ten table, the log approximations on the whole double exponent range, the table index range, the digit-count thresholds, that every text has a fraction or exponent, the length bound, that both interval endpoints use the same parity adjustment, and that no 64->32 bit truncation in the digit formatter loses value',
         'does NOT decide shortest/closest/round-trip: the Schubfach interval arithmetic itself is value level',
     ]
